@@ -11,14 +11,19 @@ tvars == <<sc, l, s>>
 Ev == Rec[l]
 
 Asyncs == {"a1", "a2", "a3"}
-S0 == [alive |-> FALSE, faked |-> [a \in Asyncs |-> "none"], fresh |-> {}]
+S0 == [alive |-> FALSE, faked |-> [a \in Asyncs |-> "none"], fresh |-> {}, orph |-> 0]
 TraceInit == sc \in 1..NScen /\ l = First(sc) /\ s = S0
 Step(name) == l <= Last(sc) /\ Ev.ev = name /\ l' = l + 1 /\ sc' = sc
 
 New  == Step("New") /\ ~s.alive /\ s' = [s EXCEPT !.alive = TRUE]
 Fake == Step("Fake") /\ s.alive /\ Ev.ok /\ s' = [s EXCEPT !.faked[Ev.a] = Ev.v]
-Drop == Step("Drop") /\ s.alive /\ Ev.live = 0 /\ s' = S0
-PanicDrop == Step("PanicDrop") /\ s.alive /\ Ev.live = 0 /\ Ev.lock # 1 /\ s' = S0
+\* a request the operating system refused: it panicked (mprotect) and nothing changed
+\* (the trampoline mapped for it stays behind: observed, outside the listed properties -- C12 speaks of successful
+\* installations -- and accounted for as an orphan, as in Trace_Api)
+FakeRefused == Step("FakeRefused") /\ s.alive /\ ~Ev.ok /\ Ev.cls = "mprotect"
+               /\ s' = [s EXCEPT !.orph = @ + 1, !.fresh = {}]
+Drop == Step("Drop") /\ s.alive /\ Ev.live = s.orph /\ s' = [S0 EXCEPT !.orph = s.orph]
+PanicDrop == Step("PanicDrop") /\ s.alive /\ Ev.live = s.orph /\ Ev.lock # 1 /\ s' = [S0 EXCEPT !.orph = s.orph]
 
 Await ==
   /\ Step("Await")
@@ -49,7 +54,7 @@ OsWrite   == Step("Write") /\ s' = IF Ev.region = "tramp" THEN [s EXCEPT !.fresh
 OsProtect == Step("Mprotect") /\ (Ev.writable => s.fresh = {}) /\ s' = s
 Other == l <= Last(sc) /\ Ev.ev \in {"Flush", "Note"} /\ l' = l + 1 /\ sc' = sc /\ s' = s
 
-TraceNext == AsyncPair \/ New \/ Fake \/ Drop \/ PanicDrop \/ Await \/ Shape \/ AsyncMismatch \/ ChildExit \/ Other \/ OsMmap \/ OsMunmap \/ OsWrite \/ OsProtect
+TraceNext == FakeRefused \/ AsyncPair \/ New \/ Fake \/ Drop \/ PanicDrop \/ Await \/ Shape \/ AsyncMismatch \/ ChildExit \/ Other \/ OsMmap \/ OsMunmap \/ OsWrite \/ OsProtect
 TraceSpec == TraceInit /\ [][TraceNext]_tvars
 Track == TrackProgress(sc, l)
 Post == PrintProgress
